@@ -120,6 +120,38 @@ type End struct {
 	inRecv atomic.Int32
 	nSend  atomic.Int64
 	nRecv  atomic.Int64
+	// returned is set when the call that was given this endpoint has
+	// returned; lateOps collects the stream operations started afterwards
+	returned atomic.Bool
+	lateMu   sync.Mutex
+	lateOps  []string
+}
+
+// MarkReturned records that the call owning this endpoint has returned: from
+// now on the stream belongs to the caller again.
+func (e *End) MarkReturned() { e.returned.Store(true) }
+
+// LateOps lists the stream operations that were started on this endpoint
+// after the call owning it had returned.
+func (e *End) LateOps() []string {
+	e.lateMu.Lock()
+	defer e.lateMu.Unlock()
+	return append([]string{}, e.lateOps...)
+}
+
+func (e *End) late(op string, pk *types.Packet) {
+	if !e.returned.Load() {
+		return
+	}
+	d := op
+	if pk != nil {
+		d = fmt.Sprintf("%s %v id=%d", op, pk.Type, pk.ID)
+	}
+	e.lateMu.Lock()
+	if len(e.lateOps) < 8 {
+		e.lateOps = append(e.lateOps, d+"\n"+stack())
+	}
+	e.lateMu.Unlock()
 }
 
 // NewPair creates the two endpoints. Each endpoint has its own context.
@@ -249,6 +281,7 @@ func (e *End) SendMsg(m interface{}) error {
 	if !ok {
 		return fmt.Errorf("wire: unexpected message type %T", m)
 	}
+	e.late("SendMsg", pk)
 	ev := Event{End: e.Name, Op: "send"}
 	summarize(pk, &ev)
 	if cfg.KeepStats && pk.Stat != nil {
